@@ -17,6 +17,8 @@ import (
 	"golang.org/x/tools/go/ssa"
 )
 
+var debugInit = os.Getenv("SYMGO_DEBUG_INIT") != ""
+
 type continuation int
 
 const (
@@ -71,7 +73,8 @@ type frame struct {
 	caller           *frame
 	fn               *ssa.Function
 	block, prevBlock *ssa.BasicBlock
-	env              map[ssa.Value]value // dynamic values of SSA variables
+	regs             []value // dynamic values of SSA variables
+	info             *fnInfo
 	locals           []value
 	defers           *deferred
 	result           value
@@ -93,10 +96,14 @@ func (fr *frame) get(key ssa.Value) value {
 	case *ssa.Global:
 		return fr.i.global(key)
 	}
-	if r, ok := fr.env[key]; ok {
-		return r
+	if k, ok := fr.info.idx[key]; ok {
+		return fr.regs[k]
 	}
 	panic(engineFault{fmt.Sprintf("get: no value for %T: %v in %s", key, key.Name(), fr.fn)})
+}
+
+func (fr *frame) set(key ssa.Value, v value) {
+	fr.regs[fr.info.idx[key]] = v
 }
 
 func (i *interpreter) global(g *ssa.Global) *value {
@@ -142,7 +149,11 @@ func (i *interpreter) ensureInit(pkg *ssa.Package) {
 		return
 	}
 	if init := pkg.Func("init"); init != nil && init.Blocks != nil {
+		s0 := i.steps
 		callSSA(i, nil, token.NoPos, init, nil, nil)
+		if debugInit {
+			fmt.Fprintf(os.Stderr, "INIT %s steps=%d\n", path, i.steps-s0)
+		}
 	}
 	if h := pkgInitHooks[path]; h != nil {
 		h(i, pkg)
@@ -211,38 +222,38 @@ func visitInstr(fr *frame, instr ssa.Instruction) continuation {
 		// no-op
 
 	case *ssa.UnOp:
-		fr.env[instr] = i.unop(fr, instr, fr.get(instr.X))
+		fr.set(instr, i.unop(fr, instr, fr.get(instr.X)))
 
 	case *ssa.BinOp:
-		fr.env[instr] = i.binop(instr.Op, instr.X.Type(), instr.Y.Type(), instr.Type(), fr.get(instr.X), fr.get(instr.Y))
+		fr.set(instr, i.binop(instr.Op, instr.X.Type(), instr.Y.Type(), instr.Type(), fr.get(instr.X), fr.get(instr.Y)))
 
 	case *ssa.Call:
 		fn, args := prepareCall(fr, &instr.Call)
-		fr.env[instr] = call(fr.i, fr, instr.Pos(), fn, args)
+		fr.set(instr, call(fr.i, fr, instr.Pos(), fn, args))
 
 	case *ssa.ChangeInterface:
-		fr.env[instr] = fr.get(instr.X)
+		fr.set(instr, fr.get(instr.X))
 
 	case *ssa.ChangeType:
-		fr.env[instr] = fr.get(instr.X) // (can't fail)
+		fr.set(instr, fr.get(instr.X)) // (can not fail)
 
 	case *ssa.Convert:
-		fr.env[instr] = i.conv(instr.Type(), instr.X.Type(), fr.get(instr.X))
+		fr.set(instr, i.conv(instr.Type(), instr.X.Type(), fr.get(instr.X)))
 
 	case *ssa.MultiConvert:
-		fr.env[instr] = i.conv(instr.Type(), instr.X.Type(), fr.get(instr.X))
+		fr.set(instr, i.conv(instr.Type(), instr.X.Type(), fr.get(instr.X)))
 
 	case *ssa.SliceToArrayPointer:
-		fr.env[instr] = i.sliceToArrayPointer(instr.Type(), instr.X.Type(), fr.get(instr.X))
+		fr.set(instr, i.sliceToArrayPointer(instr.Type(), instr.X.Type(), fr.get(instr.X)))
 
 	case *ssa.MakeInterface:
-		fr.env[instr] = iface{t: instr.X.Type(), v: fr.get(instr.X)}
+		fr.set(instr, iface{t: instr.X.Type(), v: fr.get(instr.X)})
 
 	case *ssa.Extract:
-		fr.env[instr] = fr.get(instr.Tuple).(tuple)[instr.Index]
+		fr.set(instr, fr.get(instr.Tuple).(tuple)[instr.Index])
 
 	case *ssa.Slice:
-		fr.env[instr] = i.slice(fr.get(instr.X), fr.get(instr.Low), fr.get(instr.High), fr.get(instr.Max))
+		fr.set(instr, i.slice(fr.get(instr.X), fr.get(instr.Low), fr.get(instr.High), fr.get(instr.Max)))
 
 	case *ssa.Return:
 		switch len(instr.Results) {
@@ -301,17 +312,17 @@ func visitInstr(fr *frame, instr ssa.Instruction) continuation {
 		i.S.spawn(i, fn, args, instr.Pos())
 
 	case *ssa.MakeChan:
-		fr.env[instr] = i.makeChan(instr.Type(), int(i.concreteInt(fr.get(instr.Size), "make(chan) size")))
+		fr.set(instr, i.makeChan(instr.Type(), int(i.concreteInt(fr.get(instr.Size), "make(chan) size"))))
 
 	case *ssa.Alloc:
 		var addr *value
 		if instr.Heap {
 			// new
 			addr = new(value)
-			fr.env[instr] = addr
+			fr.set(instr, addr)
 		} else {
 			// local
-			addr = fr.env[instr].(*value)
+			addr = fr.get(instr).(*value)
 		}
 		*addr = zero(mustDeref(instr.Type()))
 
@@ -329,23 +340,23 @@ func visitInstr(fr *frame, instr ssa.Instruction) continuation {
 		for k := range sl {
 			sl[k] = zero(tElt)
 		}
-		fr.env[instr] = sl[:n]
+		fr.set(instr, sl[:n])
 
 	case *ssa.MakeMap:
-		fr.env[instr] = newOmap()
+		fr.set(instr, newOmap())
 
 	case *ssa.Range:
-		fr.env[instr] = rangeIter(fr.get(instr.X))
+		fr.set(instr, i.rangeIter(fr.get(instr.X)))
 
 	case *ssa.Next:
-		fr.env[instr] = fr.get(instr.Iter).(iter).next()
+		fr.set(instr, fr.get(instr.Iter).(iter).next())
 
 	case *ssa.FieldAddr:
 		p := fr.ptr(fr.get(instr.X))
-		fr.env[instr] = &(*p).(structure)[instr.Field]
+		fr.set(instr, &(*p).(structure)[instr.Field])
 
 	case *ssa.Field:
-		fr.env[instr] = fr.get(instr.X).(structure)[instr.Field]
+		fr.set(instr, fr.get(instr.X).(structure)[instr.Field])
 
 	case *ssa.IndexAddr:
 		x := fr.get(instr.X)
@@ -353,14 +364,14 @@ func visitInstr(fr *frame, instr ssa.Instruction) continuation {
 		switch x := x.(type) {
 		case []value:
 			k := i.indexCheck(idx, len(x))
-			fr.env[instr] = &x[k]
+			fr.set(instr, &x[k])
 		case *value: // *array
 			if x == nil {
 				i.nilDeref()
 			}
 			a := (*x).(array)
 			k := i.indexCheck(idx, len(a))
-			fr.env[instr] = &a[k]
+			fr.set(instr, &a[k])
 		case *opaqueSlice:
 			unsupported("IndexAddr on opaque slice %s", x.name)
 		default:
@@ -372,18 +383,18 @@ func visitInstr(fr *frame, instr ssa.Instruction) continuation {
 		idx := fr.get(instr.Index)
 		switch x := x.(type) {
 		case array:
-			fr.env[instr] = i.indexRead([]value(x), idx)
+			fr.set(instr, i.indexRead([]value(x), idx))
 		case string:
 			k := i.indexCheck(idx, len(x))
-			fr.env[instr] = x[k]
+			fr.set(instr, x[k])
 		case *symStr:
-			fr.env[instr] = i.indexRead(x.b, idx)
+			fr.set(instr, i.indexRead(x.b, idx))
 		default:
 			panic(engineFault{fmt.Sprintf("unexpected x type in Index: %T", x)})
 		}
 
 	case *ssa.Lookup:
-		fr.env[instr] = i.lookup(instr, fr.get(instr.X), fr.get(instr.Index))
+		fr.set(instr, i.lookup(instr, fr.get(instr.X), fr.get(instr.Index)))
 
 	case *ssa.MapUpdate:
 		m := fr.get(instr.Map).(*omap)
@@ -393,20 +404,20 @@ func visitInstr(fr *frame, instr ssa.Instruction) continuation {
 		i.mapInsert(m, instr.Map.Type().Underlying().(*types.Map).Key(), fr.get(instr.Key), copyVal(fr.get(instr.Value)))
 
 	case *ssa.TypeAssert:
-		fr.env[instr] = i.typeAssert(instr, fr.get(instr.X).(iface))
+		fr.set(instr, i.typeAssert(instr, fr.get(instr.X).(iface)))
 
 	case *ssa.MakeClosure:
 		var bindings []value
 		for _, binding := range instr.Bindings {
 			bindings = append(bindings, fr.get(binding))
 		}
-		fr.env[instr] = &closure{instr.Fn.(*ssa.Function), bindings}
+		fr.set(instr, &closure{instr.Fn.(*ssa.Function), bindings})
 
 	case *ssa.Phi:
 		panic("unreachable") // phis are processed at block entry
 
 	case *ssa.Select:
-		fr.env[instr] = i.selectStmt(fr, instr)
+		fr.set(instr, i.selectStmt(fr, instr))
 
 	default:
 		panic(engineFault{fmt.Sprintf("unexpected instruction: %T", instr)})
@@ -519,6 +530,22 @@ func callSSA(i *interpreter, caller *frame, callpos token.Pos, fn *ssa.Function,
 	if info.native != nil {
 		return info.native(fr, args)
 	}
+	return runSSA(i, fr, info, fn, args, env)
+}
+
+// callSSABody interprets fn's SSA body even if a native is registered for it.
+func callSSABody(i *interpreter, caller *frame, callpos token.Pos, fn *ssa.Function, args []value, env []value) value {
+	fr := &frame{i: i, caller: caller, fn: fn, callpos: callpos}
+	if caller != nil {
+		fr.g = caller.g
+	} else {
+		fr.g = i.curG
+	}
+	return runSSA(i, fr, i.W.fnInfo(fn), fn, args, env)
+}
+
+func runSSA(i *interpreter, fr *frame, info *fnInfo, fn *ssa.Function, args []value, env []value) value {
+	caller, callpos := fr.caller, fr.callpos
 	if info.intercept != nil {
 		return callSSA(i, caller, callpos, info.intercept, args, nil)
 	}
@@ -543,18 +570,22 @@ func callSSA(i *interpreter, caller *frame, callpos token.Pos, fn *ssa.Function,
 		fmt.Fprintf(os.Stderr, "%*sEntering %s\n", depth(fr), "", fn)
 	}
 
-	fr.env = make(map[ssa.Value]value, info.nvals)
+	if info.idx == nil {
+		info.buildIndex(fn)
+	}
+	fr.info = info
+	fr.regs = make([]value, len(info.idx))
 	fr.block = fn.Blocks[0]
 	fr.locals = make([]value, len(fn.Locals))
 	for k, l := range fn.Locals {
 		fr.locals[k] = zero(mustDeref(l.Type()))
-		fr.env[l] = &fr.locals[k]
+		fr.set(l, &fr.locals[k])
 	}
 	for k, p := range fn.Params {
-		fr.env[p] = args[k]
+		fr.set(p, args[k])
 	}
 	for k, fv := range fn.FreeVars {
-		fr.env[fv] = env[k]
+		fr.set(fv, env[k])
 	}
 	if fr.g != nil {
 		saved := fr.g.top
@@ -657,7 +688,7 @@ func executePhis(fr *frame) []ssa.Instruction {
 			fr.phitemps = append(fr.phitemps, fr.get(phi.Edges[predIndex]))
 		}
 		for i, phi := range phis {
-			fr.env[phi.(*ssa.Phi)] = fr.phitemps[i]
+			fr.set(phi.(*ssa.Phi), fr.phitemps[i])
 		}
 	}
 	return nonPhis
